@@ -3,7 +3,7 @@ import ast
 import glob
 import os
 
-REPO = "/repo"
+REPO = os.environ.get("PYVC_REPO", "/repo")  # PYVC_REPO: a scratch worktree (seed evaluation only)
 STATIC = {}  # prop -> list of callables(tier) -> list of {name, ok, detail}
 
 TRUSTED = {
